@@ -39,7 +39,7 @@ deriving Repr
 
 /-! ### the hand-over to the in-process engine (`GetBreakpoint`, `breakScript`) -/
 /-- a pipeline element of a script: a stage ClickHouse can run, or one only the in-process engine has
-    (`| json` without parameters, `| logfmt`, `| line_format`) -/
+    (`| json` without parameters, `| logfmt`, `| line_format`, `| label_format`) -/
 inductive ScriptStage
   | sql (s : StageX)
   | inproc (tag : String)
